@@ -340,11 +340,23 @@ func (ap *AP) T(axes ...int) (retVal AP, a []int, err error) {
 	case ap.IsScalar():
 		return
 	case ap.IsVector():
-		if axes[0] == 0 {
+		// the identity was handled above: the only transposition of a vector is (1, 0) of a
+		// row or column vector
+		if len(currentShape) != 2 || len(axes) != 2 || axes[0] != 1 || axes[1] != 0 {
+			err = errors.Errorf("Invalid axes %v for transposing a vector of shape %v", axes, currentShape)
 			return
 		}
-		strides[0], strides[1] = 1, 1
 		shape[0], shape[1] = currentShape[1], currentShape[0]
+		// the long axis keeps its stride (a strided view of a vector is not unit-strided)
+		strides[0], strides[1] = 1, 1
+		if len(currentStride) == 2 {
+			if currentShape[0] != 1 {
+				strides[1] = currentStride[0]
+			}
+			if currentShape[1] != 1 {
+				strides[0] = currentStride[1]
+			}
+		}
 	default:
 		copy(shape, currentShape)
 		copy(strides, currentStride)
